@@ -294,6 +294,7 @@ func (e *Engine) load(st *State, a *Addr) Val {
 		base = sel(sel(e.heapIn(st, a.Heap, a.HSort), a.Ref), a.Idx)
 	case aGlobal:
 		base = e.heapIn(st, a.Heap, a.HSort)
+		e.sentinelFacts(a.Heap, base)
 	case aPtr:
 		if u, ok := isStruct(bt); ok {
 			base = e.loadStruct(st, a.Ref, bt, u)
@@ -706,6 +707,16 @@ func (e *Engine) evalInv(fc *fnCtx, li *loopInfo, st *State, c Clause) string {
 	env := fc.env.with(st)
 	env.loop = li
 	env.fc = fc
+	// in an invariant a parameter name denotes the current value of the (mutable) parameter variable
+	env.vars = map[string]Val{}
+	for k, v := range fc.env.vars {
+		if _, isParam := fc.env.entryVals[k]; isParam {
+			if _, ok := e.localByName(env, k); ok {
+				continue
+			}
+		}
+		env.vars[k] = v
+	}
 	v := e.trSpec(env, c.E)
 	return v.T
 }
